@@ -151,6 +151,37 @@ theorem inv_next (s : Sys) (e : Ev) (inv : Inv s) (hc : clean e = true) : Inv (n
   | extdel i => simp [clean] at hc
   | expire i => simp [clean] at hc
   | monErr v i => simp [clean] at hc
+  | extset i x => simp [clean] at hc
+  | acqErr v i =>
+    simp only [next]
+    by_cases hpre : (s.hs v).mons i = .idle ∧ i < s.n
+    · rw [if_pos hpre]
+      have hbase := inv_exit_idle s v i inv hpre.1
+      apply inv_replace s v _ _ _ inv
+      · intro j hr
+        have := hbase.J v j (by rw [hs_same]; exact hr)
+        refine ⟨?_, this.2⟩
+        simp only [upd]
+        by_cases hj : j = i
+        · subst hj; simp only [exitMon_mons, upd, if_true] at hr; cases hr
+        · simp only [if_neg hj]; exact this.1
+      · intro hcv
+        have := hbase.K v (by rw [hs_same]; exact hcv)
+        rw [hs_same] at this; exact this
+      · intro hr
+        have := hbase.R v (by rw [hs_same]; exact hr)
+        rw [hs_same] at this; exact this
+      · intro w j hw hr
+        simp only [upd]
+        by_cases hj : j = i
+        · subst hj
+          have hown := (inv.J w j hr).1
+          have : delScript v (s.regs j) = (s.regs j, false) := by
+            simp only [delScript, hown]
+            rw [if_neg]; intro e; exact hw (Option.some.inj e)
+          simp [this]
+        · simp only [if_neg hj]
+    · rw [if_neg hpre]; exact inv
   | acq v i =>
     simp only [next]
     by_cases hpre : (s.hs v).mons i = .idle ∧ i < s.n
@@ -365,6 +396,31 @@ theorem ctx_done_before_release_witness_repaired :
     live (delState wPre 7 0) 7 = false ∧ (delState wPre 7 0).regs 0 = some 7 := by
   decide
 
+/-- a monitor that never acquired its key counts when it leaves: after a refused or failed
+acquisition (`acq` on a held key, `acqErr`, `skip`) the holder has one more exited monitor -/
+theorem never_acquired_counts (m n : Nat) (h : Holder) (i : Nat) (hi : i < n) (hidle : h.mons i = .idle) :
+    cnt n (isExited (exitMon m n h i)) = cnt n (isExited h) + 1 := by
+  have : isExited (exitMon m n h i) = fun j => upd h.mons i Mon.exited j == Mon.exited := by
+    funext j; simp [isExited]
+  rw [this]
+  apply cnt_upd_succ n i _ _ hi
+  · simp [isExited, hidle]
+  · simp [upd]
+  · intro j hj; simp [isExited, upd, hj]
+
+/-- BARE MAJORITY (m = 2): keys 0 and 1 acquired, the acquisition of key 2 failed with an error.
+The holder is live. When the extend of key 0 then fails, the context is already done in the
+state in which the DEL of key 0 is issued — because the never-acquired monitor of key 2 is
+counted (`leaving` = 2 = majority). A counter that ignored never-acquired monitors would see 1
+and the DEL would leave the holder one key of three with a live context. -/
+def wBare : Sys := run (init 2) [.acq 7 0, .acq 7 1, .acqErr 7 2, .ret 7]
+
+theorem bare_majority_error_cancels_first :
+    live wBare 7 = true ∧ cnt wBare.n (isExited (wBare.hs 7)) = 1 ∧
+    live (delState wBare 7 0) 7 = false ∧ (delState wBare 7 0).regs 0 = some 7 ∧
+    owned (next wBare (.monErr 7 0)) 7 = 1 := by
+  decide
+
 /-! ### 5. loss is noticed -/
 
 /-- once every monitor has been started and each one whose key is no longer owned has taken its
@@ -513,6 +569,12 @@ theorem waiter_not_lost (s : Sys) (e : Ev) (inv : WInv s) : WInv (next s e) := b
     · rw [if_neg hpre]; exact inv
   | extdel i => exact winv_none s i inv
   | expire i => exact winv_none s i inv
+  | extset i x => exact winv_set_notify s i x _ inv
+  | acqErr v i =>
+    simp only [next]
+    by_cases hpre : (s.hs v).mons i = .idle ∧ i < s.n
+    · rw [if_pos hpre]; exact winv_delscript s v i _ inv
+    · rw [if_neg hpre]; exact inv
   | park w i =>
     simp only [next]
     by_cases h : s.regs i ≠ none
